@@ -723,6 +723,32 @@ def check_property(prop, jobs, tier, meta):
         samples.append({"job": r["job"], "kind": r["kind"], "domain": r["domain"], "obligations": r.get("sample_obligations", []),
                         "defines": r["defines"]})
     solver_time = round(sum(r.get("solver_secs", 0) for r in results.values()), 1)
+    # mechanical scan of the harness texts used in this run for every assume (precondition / pruning) and
+    # __CPROVER_requires: nothing is assumed that is not listed here
+    scan = []
+    seen_files = set()
+    for j in jobs:
+        if j.harness.startswith("("):
+            continue
+        hp = os.path.join(VERIF, "harness", j.harness)
+        files = [hp]
+        try:
+            for inc in re.findall(r'#include "([^"]+)"', open(hp).read()):
+                for d in (os.path.dirname(hp), os.path.join(VERIF, "harness", "common"), os.path.join(VERIF, "models")):
+                    if os.path.exists(os.path.join(d, inc)):
+                        files.append(os.path.join(d, inc))
+        except OSError:
+            pass
+        for fp in files:
+            if fp in seen_files:
+                continue
+            seen_files.add(fp)
+            try:
+                for ln, line in enumerate(open(fp), 1):
+                    if re.search(r"\b(VH_ASSUME|__CPROVER_assume|__CPROVER_requires)\s*\(", line) and not line.lstrip().startswith(("*", "/*", "//", "#define")):
+                        scan.append("%s:%d: %s" % (os.path.relpath(fp, VERIF), ln, line.strip()[:160]))
+            except OSError:
+                pass
     ev = {
         "property_id": prop, "tier": tier, "seed": seed, "level": meta.get("level", "proof"),
         "coverage": {
@@ -740,6 +766,7 @@ def check_property(prop, jobs, tier, meta):
             "jobs": [{k: v for k, v in r.items() if not k.startswith("_") and k not in ("sample_obligations",)}
                      for r in results.values()],
             "solver_seconds_total": solver_time,
+            "assume_scan": {"count": len(scan), "lines": scan[:80]},
             "undecided_jobs": [r["job"] for r in undecided],
             "known_findings_hit": [{"job": j.name, "obligation": k["obligation"], "text": k["text"]} for j, f, k in known_hits],
             "explanation": meta.get("explanation", ""),
